@@ -242,15 +242,19 @@ Notation "m ;;; k" := (seq m k) (at level 61, right associativity).
 (* ------------------------------------------------------------------ *)
 (* 4. _check_property's wrapper (base.py)                                 *)
 
-Inductive clean_result := CleanOk | CleanRaise (e : exn).
+(* clean() returns, or raises e; `strfail` = what str(exc) raises when the wrapper words the reason
+   (None: the exception's __str__ returns normally) *)
+Inductive clean_result := CleanOk | CleanRaise (e : exn) (strfail : option exn).
 
 (* try: clean() / except InvalidValueError: raise / except Exception: raise InvalidValueError *)
 Definition check_property_wrapper (r : clean_result) : res unit :=
   match r with
   | CleanOk => Val tt
-  | CleanRaise e =>
+  | CleanRaise e sf =>
       if subclass e K_InvalidValueError then Exc e S_lib
-      else if is_exception e then Exc (Known K_InvalidValueError) S_lib
+      else if is_exception e then
+        (* raise InvalidValueError(self.__class__, prop_name, reason=str(exc)) from exc -- str(exc) runs inside the handler *)
+        match sf with None => Exc (Known K_InvalidValueError) S_lib | Some e' => Exc e' S_lib end
       else Exc e S_lib      (* KeyboardInterrupt etc. are not caught *)
   end.
 
@@ -345,6 +349,11 @@ Record slot := { s_name : ustring; s_required : bool; s_default : bool; s_ref : 
 Definition cleaner := bool -> bool -> slot -> option jvalue -> M unit.
 Definition clean_any : cleaner := fun _ _ _ _ => may [K_InvalidValueError].
 Definition blackbox := bool -> bool -> slot -> option jvalue -> clean_result.
+(* the hypothesis of the theorems about an arbitrary black box: clean() raises Exception subclasses only
+   (KeyboardInterrupt ... pass through by design) and their __str__ is total *)
+Definition well_behaved (cl : blackbox) : Prop :=
+  forall ac io s ov e sf, cl ac io s ov = CleanRaise e sf -> is_exception e = true /\ sf = None.
+
 Definition clean_via (cl : blackbox) : cleaner := fun ac io s v => lift (check_property_wrapper (cl ac io s v)).
 
 
